@@ -352,7 +352,12 @@ type c11Case struct {
 }
 
 func c11OpenWorld(f *c11Family, w c11World) (*gorm.DB, func()) {
-	db, _, sqlDB := OpenRec(&gorm.Config{DisableForeignKeyConstraintWhenMigrating: true})
+	db, _, closeFn := c11OpenWorldRec(f, w)
+	return db, closeFn
+}
+
+func c11OpenWorldRec(f *c11Family, w c11World) (*gorm.DB, *Recorder, func()) {
+	db, rec, sqlDB := OpenRec(&gorm.Config{DisableForeignKeyConstraintWhenMigrating: true})
 	var models []interface{}
 	for _, t := range f.Tables {
 		if t.Model != nil {
@@ -396,7 +401,7 @@ func c11OpenWorld(f *c11Family, w c11World) (*gorm.DB, func()) {
 			}
 		}
 	}
-	return db, func() { sqlDB.Close() }
+	return db, rec, func() { sqlDB.Close() }
 }
 
 func hasCol(t *c11Table, name string) bool {
